@@ -53,6 +53,8 @@ def run(e: Engine, rep: Report):
     g4(e, rep, 'G4')
     g5(e, rep, 'G5')
     g6(e, rep, 'G6')
+    g7(e, rep, 'G7')
+    g8(e, rep, 'G8')
     rep.floor('G1', 6, 'buffer / socket access sites')
 
 
@@ -73,6 +75,13 @@ def rules(rep: Report):
              'before the piece is interpreted: add_lines(piece) is reached '
              'only when the limit test failed; the test does not depend on '
              'parser state')
+    rep.rule('G7', 'Server.handle never ends (normally or by an '
+             'exception) with replies still in the send buffer: after every '
+             'command / reply.send an unconditional flush_send lies on '
+             'every way out')
+    rep.rule('G8', 'no raise in the line-buffering functions of IO is '
+             'conditioned on how much is buffered (the amount in '
+             'recv_buffer depends on how the stream was cut)')
     rep.tables.add('c09.RECV_BUFFER_WRITERS')
 
 
@@ -160,8 +169,9 @@ def _regex_ends_in_newline(e: Engine, module, name: str) -> Optional[bool]:
     return str(op) == 'LITERAL' and arg == 10
 
 
-def g2(e: Engine, rep: Report, rule: str):
-    for meth in ('recv_line', 'recv_reply'):
+def g2(e: Engine, rep: Report, rule: str,
+       meths=('recv_line', 'recv_reply')):
+    for meth in meths:
         ctx = e.method_ctx(IOC, meth)
         g = e.build(ctx, raises=lambda b, n, r: set())
         fx = e.facts(g)
@@ -549,3 +559,95 @@ def g6(e: Engine, rep: Report, rule: str):
                   'depends on what the parser has seen so far, i.e. on the '
                   'segmentation' % dep, loc=n.loc(),
                   reason='guarded by size / max_size only')
+
+
+# ---------------------------------------------------------------------- G7
+def g7(e: Engine, rep: Report, rule: str):
+    ctx = e.method_ctx(SERVER, 'handle')
+    g = e.build(ctx)
+    where = ctx.func.qname
+    rep.functions.add(where)
+
+    def dirty(n):
+        if n.kind != 'call':
+            return False
+        nm = e.call_name(n)
+        if nm == '_handle_command':
+            return True
+        if nm == 'send' and n.ast.args and \
+                canon(n.ast.args[0], n.frame) == 'self.io':
+            return not any(k.arg == 'flush' and
+                           isinstance(k.value, ast.Constant) and
+                           k.value.value for k in n.ast.keywords)
+        return False
+
+    def clean(n):
+        if n.kind != 'call':
+            return False
+        nm = e.call_name(n)
+        if nm == 'flush_send':
+            return True
+        return nm == 'send' and any(
+            k.arg == 'flush' and isinstance(k.value, ast.Constant) and
+            k.value.value for k in n.ast.keywords)
+    ds = [n for n in g.nodes if dirty(n)]
+    cs = [n for n in g.nodes if clean(n)]
+    if not ds or not cs:
+        rep.error('anchor vanished: reply / flush sites in Server.handle')
+        return
+
+    def step(n, label, st):
+        # the command handler may have buffered replies even when it raised
+        if n in ds:
+            return True
+        if n in cs:
+            return False      # an attempted flush (it may fail: peer gone)
+        return st
+    rep.evaluations += 1
+    pth = dataflow.typestate_witness(
+        g, False, step,
+        lambda n, st: st and (n is g.exit or n is g.raise_exit))
+    rep.check(pth is None, rule, where,
+              'the session never ends with unflushed replies',
+              'Server.handle can return (or raise) while replies are still '
+              'in the send buffer: whether the client ever sees them - the '
+              'final 221/421 included - depends on whether more input '
+              'happened to be buffered, i.e. on how its bytes were '
+              'segmented', loc=ctx.func.loc(),
+              reason='flush_send on every way out after a reply',
+              witness=dataflow.render_path(pth, 16) if pth else None)
+
+
+# ---------------------------------------------------------------------- G8
+def g8(e: Engine, rep: Report, rule: str):
+    n_r = 0
+    for meth in ('buffered_recv', 'recv_line', 'recv_command', 'recv_reply',
+                 'raw_recv'):
+        m = e.p.lookup_method(IOC, meth)
+        if m is None:
+            continue
+        ctx = Ctx(m, IOC)
+        g = e.build(ctx, raises=lambda b, n, r: set())
+        fx = e.facts(g)
+        where = ctx.func.qname
+        rep.functions.add(where)
+        for n in g.of_kind('stmt'):
+            if not isinstance(n.ast, ast.Raise):
+                continue
+            n_r += 1
+            rep.evaluations += 1
+            st = fx.at(n) or frozenset()
+            dep = sorted(k for p, k in st if 'recv_buffer' in k)
+            rep.check(not dep, rule, where,
+                      '`%s` does not depend on the amount buffered'
+                      % ' '.join(ast.unparse(n.ast).split())[:40],
+                      'the receive path fails under %s: how much sits in '
+                      'recv_buffer depends on how the peer\'s bytes were '
+                      'cut into reads (and on pipelining), so the same '
+                      'stream is accepted or refused depending on its '
+                      'segmentation' % dep, loc=n.loc(),
+                      reason='condition is about the piece just received / '
+                      'the line matched')
+    if n_r < 2:
+        rep.error('anchor vanished: raise sites in the IO receive path '
+                  '(%d < 2)' % n_r)
